@@ -327,11 +327,16 @@ theorem valueDiags_scope (s : RSchema) (vars : List RVarDef) :
       | list xs =>
         simp only [] at hd
         by_cases h1 : acceptsList ty kind = true
-        · by_cases h2 : kind.isInput = true
-          · simp only [h1, h2, Bool.not_true, Bool.false_eq_true, if_false, if_true, List.mem_flatMap] at hd
+        · by_cases h0 : ty.isList = true
+          · by_cases h2 : kind.isInput = true
+            · simp only [h1, h0, h2, Bool.not_true, Bool.false_eq_true, if_false, if_true, List.mem_flatMap] at hd
+              obtain ⟨x, _, hx⟩ := hd
+              exact ih _ x d hx
+            · simp [h1, h0, h2] at hd; subst hd; trivial
+          · have h0' : ty.isList = false := by simpa using h0
+            simp only [h1, h0', Bool.not_true, Bool.not_false, Bool.false_eq_true, if_false, if_true, List.mem_flatMap] at hd
             obtain ⟨x, _, hx⟩ := hd
-            exact ih _ x d hx
-          · simp [h1, h2] at hd; subst hd; trivial
+            exact opaqueVars_scope vars k x d hx
         · simp [h1] at hd; subst hd; trivial
       | obj kvs =>
         simp only [] at hd
